@@ -553,7 +553,26 @@ def functional_cases():
             for dtype in ("float", "int", "list"):
                 for field in ("B", "H"):
                     cases.append({"functional": cls, "n": n, "dtype": dtype, "field": field})
+    from mc.props import C07
+
+    cases += [{"core": name} for name in C07.CORES]
     return cases
+
+
+def run_core_case(case):
+    """exported core functions: the caller's input arrays must come back unchanged"""
+    from magpylib import core as _core
+
+    from mc.props import C07
+
+    probe = C07.CoreProxy(_core)
+    C07.run_core({"core": case["core"]}, probe=probe)
+    problems = []
+    if probe.mutated:
+        problems.append(f"caller array changed: {sorted(set(probe.mutated))}")
+    if probe.second_differs:
+        problems.append("second call differs")
+    return {"outcome": "ok", "problems": problems, "ncalls": None}
 
 
 def run_functional(case):
@@ -600,6 +619,8 @@ def run_functional(case):
 
 def work(case):
     try:
+        if "core" in case:
+            return run_core_case(case)
         if "functional" in case:
             return run_functional(case)
         return run_case(case)
@@ -626,6 +647,8 @@ def work_inject(args):
 
 
 def vkey(case, res):
+    if "core" in case:
+        return f"C08|core|{case['core']}|{res['problems'][0].split(':')[0]}"
     if "functional" in case:
         return f"C08|functional|{case['functional']}|{res['problems'][0].split(':')[0]}"
     kind = res["problems"][0].split(":")[0]
@@ -653,7 +676,7 @@ def run(tier, seed):
         if r.get("harness"):
             harness.append(f"{c}: {r['harness']}")
             continue
-        if "functional" not in c:
+        if "functional" not in c and "core" not in c:
             lens = {pl for _, pl in c["srcs"]} | {c["obs_plen"]}
             if len(lens) > 1 or c["fault"] != "none":
                 nontrivial.add(json.dumps(c, sort_keys=True))
